@@ -22,7 +22,7 @@
    The document type is the reduction of format/problem/model.rs to the fields these functions look at; documents of this type
    have no relations, no objectives, no clustering, no recharges and only coordinate locations (every place its own coordinate),
    and are read through `String::read_pragmatic` (approximated routing matrices).  Relations / objectives / index locations are
-   covered by the python reference in tools/props/c10.py only.
+   covered by the python reference in tools/props/c10_full.py only.
    RFC 3339 parsing is an oracle: a time string travels as its text plus the result of parsing it (tm_val), supplied by the generator.
    Numbers are integers (the generator only emits integer-valued durations, costs and offsets).
 
